@@ -255,7 +255,9 @@ def generate(live: Optional[dict] = None) -> dict:
         p["row"] = distinct[key]
     body = []
     for i, p in rows:
-        body.append(f"  -- {i}: {p['target']}   {p['so']}  ~>  {p['sn']}".replace("\n", " ")[:400])
+        comment = f"  -- {i}: {p['target']}   {p['so']}  ~>  {p['sn']}".replace("\n", " ")
+        comment = re.sub(r" at 0x[0-9a-fA-F]+", " at 0x..", comment)   # no addresses: the file must be stable
+        body.append(comment[:400])
         body.append(f"  ⟨{i}, {_lean_sig(p['O'], tab)},\n      {_lean_sig(p['W'], tab)}, "
                     f"{lean_bool(p['flag_py'] is not None)}⟩,")
     if body:
